@@ -227,20 +227,82 @@ func sysOutcome(v system.Any, err error) lib.Outcome {
 // ---------------------------------------------------------------- proto-precision
 
 type protoCase struct {
-	ID    string   `json:"id"`
-	Sub   string   `json:"sub"`
-	El    elemDesc `json:"el"`
-	Canon []int    `json:"canon"`
-	Ek    string   `json:"ek"`
-	Expr  []int    `json:"expr"`
+	ID    string          `json:"id"`
+	Sub   string          `json:"sub"`
+	RawEl json.RawMessage `json:"el"`
+	El    elemDesc        `json:"-"`
+	Canon []int           `json:"canon"`
+	Ek    string          `json:"ek"`
+	Expr  []int           `json:"expr"`
+}
+
+// scalarDesc is the specification's description of a non-temporal element.
+type scalarDesc struct {
+	Ek   string `json:"ek"`
+	B    bool   `json:"b"`
+	I    int64  `json:"i"`
+	S    []int  `json:"s"`
+	Code []int  `json:"code"`
+}
+
+func (d scalarDesc) build(id string) proto.Message {
+	str := lib.FromCodePoints(d.S)
+	switch d.Ek {
+	case "Boolean":
+		return &dtpb.Boolean{Value: d.B}
+	case "String":
+		return &dtpb.String{Value: str}
+	case "Uri":
+		return &dtpb.Uri{Value: str}
+	case "Url":
+		return &dtpb.Url{Value: str}
+	case "Code":
+		return &dtpb.Code{Value: str}
+	case "Oid":
+		return &dtpb.Oid{Value: str}
+	case "Id":
+		return &dtpb.Id{Value: str}
+	case "Uuid":
+		return &dtpb.Uuid{Value: str}
+	case "Markdown":
+		return &dtpb.Markdown{Value: str}
+	case "Canonical":
+		return &dtpb.Canonical{Value: str}
+	case "Integer":
+		return &dtpb.Integer{Value: int32(d.I)}
+	case "UnsignedInt":
+		return &dtpb.UnsignedInt{Value: uint32(d.I)}
+	case "PositiveInt":
+		return &dtpb.PositiveInt{Value: uint32(d.I)}
+	case "Decimal":
+		return &dtpb.Decimal{Value: str}
+	case "Quantity":
+		q := &dtpb.Quantity{Value: &dtpb.Decimal{Value: str}}
+		if len(d.Code) > 0 {
+			q.Code = &dtpb.Code{Value: lib.FromCodePoints(d.Code)}
+			q.System = &dtpb.Uri{Value: "http://unitsofmeasure.org"}
+		}
+		return q
+	}
+	lib.Fatal("case %s: unknown scalar element kind %q", id, d.Ek)
+	return nil
 }
 
 func runProto(e *env, raw json.RawMessage, rec map[string]any) {
 	var c protoCase
 	must(json.Unmarshal(raw, &c), c.ID)
-	if c.Sub == "from" {
+	switch c.Sub {
+	case "from":
+		must(json.Unmarshal(c.RawEl, &c.El), c.ID)
 		runProtoFrom(e, c, rec)
-	} else {
+	case "fromscalar":
+		var d scalarDesc
+		must(json.Unmarshal(c.RawEl, &d), c.ID)
+		el := d.build(c.ID)
+		rec["src"] = lib.Ascii(fmt.Sprintf("system.From(%s{%s})", d.Ek, lib.FromCodePoints(d.S)))
+		rec["from"] = guarded(func() lib.Outcome { return sysOutcome(system.From(el)) })
+		rec["out"] = rec["from"]
+	default:
 		runProtoTo(e, c, rec)
 	}
 }
